@@ -301,6 +301,11 @@ pub struct Plan {
     /// cucumber made for the step / hook) - so every span that ever closes is one the runner waits for.
     #[serde(default, skip_serializing_if = "std::ops::Not::not")]
     pub plain_logs: bool,
+    /// Tracing runs: some steps await a nested in-memory run of the same crate (its own runner::Basic without a
+    /// collector) whose steps log: such a log is emitted inside scenario(outer) > step > scenario(nested) > step
+    /// and is owed to the OUTER step.
+    #[serde(default, skip_serializing_if = "std::ops::Not::not")]
+    pub nested_runs: bool,
 }
 
 /// Whether every feature, rule and scenario of the plan differs from every other in its name (and no feature
